@@ -1,7 +1,559 @@
-//! C12 harness module (not implemented yet).
+//! C12: BIP32 public derivation. Real `derive_xpub` / `derive_child_pubkey` / `get_finger_print` /
+//! `XPubKey::to_string` (crates/sl-mpc-mate/src/bip32.rs) vs
+//!   (a) the extracted model coq/Model/Bip32.v and (b) the extracted specification coq/Model/Bip32Spec.v,
+//!       both run by the OCaml driver with the real k256 / hmac / sha2 / ripemd behind their oracles;
+//!   (c) an implementation-only oracle: an independent Rust reference of BIP32 (own CKDpub, own
+//!       Base58 on BigUint), additivity child == parent + offset*G, the error cases, and the public
+//!       derivations of BIP32 test vectors 1 and 2.
+//! Replay: `replay=<file>` containing `prefix=.. root=.. cc=.. path=..` (the text of an ORACLE/DISAGREE line).
+use crate::oracle::*;
 use crate::util::*;
+use derivation_path::{ChildIndex, DerivationPath};
+use elliptic_curve::ops::Reduce;
+use elliptic_curve::sec1::ToEncodedPoint;
+use elliptic_curve::Field;
+use k256::{ProjectivePoint, Scalar, U256};
+use num_bigint_dig::BigUint;
+use rand::{Rng, RngCore};
+use sl_mpc_mate::bip32::{derive_child_pubkey, derive_xpub, get_finger_print, BIP32Error, Prefix, XPubKey};
+use std::io::Write;
+use std::panic::{catch_unwind, AssertUnwindSafe};
 
-pub fn run(_kv: &Args) -> i32 {
-    eprintln!("c12: not implemented");
-    2
+const HARD: u32 = 1 << 31;
+
+#[derive(Clone)]
+struct Case {
+    kind: String,
+    prefix: String, // x y z t c<hex>
+    root: ProjectivePoint,
+    cc: [u8; 32],
+    path: Vec<u32>, // ChildIndex::to_bits
+    parse: bool,    // build the DerivationPath by parsing "m/.." instead of DerivationPath::new
+}
+
+fn prefix_of(tag: &str) -> Prefix {
+    match tag {
+        "x" => Prefix::XPub,
+        "y" => Prefix::YPub,
+        "z" => Prefix::ZPub,
+        "t" => Prefix::TPub,
+        c => Prefix::Custom(u32::from_str_radix(&c[1..], 16).expect("custom prefix")),
+    }
+}
+/// version bytes from BIP32 / SLIP-132, independent of the crate's table
+fn version_of(tag: &str) -> u32 {
+    match tag {
+        "x" => 0x0488_B21E,
+        "y" => 0x049D_7CB2,
+        "z" => 0x04B2_4746,
+        "t" => 0x0435_87CF,
+        c => u32::from_str_radix(&c[1..], 16).unwrap(),
+    }
+}
+
+fn path_str(p: &[u32]) -> String {
+    if p.is_empty() { "-".into() } else { p.iter().map(|i| format!("{:x}", i)).collect::<Vec<_>>().join(",") }
+}
+fn mk_path(c: &Case) -> DerivationPath {
+    if c.parse {
+        let mut s = String::from("m");
+        for &i in &c.path {
+            if i & HARD != 0 { s.push_str(&format!("/{}'", i & !HARD)); } else { s.push_str(&format!("/{}", i)); }
+        }
+        s.parse().expect("derivation path")
+    } else {
+        DerivationPath::new(c.path.iter().map(|&b| ChildIndex::from_bits(b)).collect::<Vec<_>>())
+    }
+}
+fn err_code(e: &BIP32Error) -> u32 {
+    match e {
+        BIP32Error::HardenedChildNotSupported => 1,
+        BIP32Error::InvalidChainCode => 2,
+        BIP32Error::PubkeyPointAtInfinity => 3,
+        BIP32Error::InvalidChildScalar => 4,
+        BIP32Error::PathTooDeep => 5,
+    }
+}
+fn input_str(c: &Case) -> String {
+    format!("prefix={} root={} cc={} path={}", c.prefix, point_hex(&c.root), hex::encode(c.cc), path_str(&c.path))
+}
+
+/// string outcome in the driver's notation
+fn str_out(r: std::thread::Result<String>) -> String {
+    match r { Ok(s) => format!("val:{}", hx(s.as_bytes())), Err(_) => "panic".into() }
+}
+fn strip_site(s: &str) -> String {
+    if s.starts_with("panic") { "panic".into() } else { s.to_string() }
+}
+
+// ---------------------------------------------------------------- independent reference
+fn ref_b58(b: &[u8]) -> String {
+    const A: &[u8] = b"123456789ABCDEFGHJKLMNPQRSTUVWXYZabcdefghijkmnopqrstuvwxyz";
+    let z = b.iter().take_while(|&&x| x == 0).count();
+    let mut s: String = std::iter::repeat('1').take(z).collect();
+    let n = BigUint::from_bytes_be(b);
+    if n != BigUint::from(0u8) {
+        for d in n.to_radix_be(58) { s.push(A[d as usize] as char); }
+    }
+    s
+}
+fn ref_b58_decode(s: &str) -> Option<Vec<u8>> {
+    const A: &[u8] = b"123456789ABCDEFGHJKLMNPQRSTUVWXYZabcdefghijkmnopqrstuvwxyz";
+    let z = s.bytes().take_while(|&x| x == b'1').count();
+    let mut n = BigUint::from(0u8);
+    for c in s.bytes() {
+        let d = A.iter().position(|&a| a == c)?;
+        n = n * BigUint::from(58u8) + BigUint::from(d as u32);
+    }
+    let mut out = vec![0u8; z];
+    if n != BigUint::from(0u8) { out.extend(n.to_bytes_be()); }
+    Some(out)
+}
+fn sha256(b: &[u8]) -> Vec<u8> { use sha2::{Digest, Sha256}; Sha256::digest(b).to_vec() }
+fn ref_fp(p: &ProjectivePoint) -> [u8; 4] {
+    use ripemd::{Digest, Ripemd160};
+    let d = Ripemd160::digest(sha256(p.to_encoded_point(true).as_bytes()));
+    [d[0], d[1], d[2], d[3]]
+}
+/// CKDpub from the BIP text: None = failure/invalid
+fn ref_ckd(parent: &ProjectivePoint, cc: &[u8; 32], i: u32) -> Option<(Scalar, ProjectivePoint, [u8; 32])> {
+    use hmac::{Hmac, Mac};
+    if i >= HARD { return None; }
+    let mut m = Hmac::<sha2::Sha512>::new_from_slice(cc).unwrap();
+    let mut data = parent.to_encoded_point(true).as_bytes().to_vec();
+    data.extend_from_slice(&i.to_be_bytes());
+    m.update(&data);
+    let r = m.finalize().into_bytes();
+    let il = BigUint::from_bytes_be(&r[..32]);
+    if il >= q_k256() { return None; }
+    let mut b = [0u8; 32];
+    b.copy_from_slice(&r[..32]);
+    let s = <Scalar as Reduce<U256>>::reduce(U256::from_be_slice(&b));
+    let k = ProjectivePoint::GENERATOR * s + parent;
+    if k == ProjectivePoint::IDENTITY { return None; }
+    let mut c = [0u8; 32];
+    c.copy_from_slice(&r[32..]);
+    Some((s, k, c))
+}
+struct RefKey { depth: usize, fp: [u8; 4], num: u32, cc: [u8; 32], key: ProjectivePoint, offsets: Vec<Scalar> }
+fn ref_derive(root: &ProjectivePoint, cc: &[u8; 32], path: &[u32]) -> Option<RefKey> {
+    let mut k = RefKey { depth: 0, fp: [0; 4], num: 0, cc: *cc, key: *root, offsets: vec![] };
+    for &i in path {
+        let (o, child, c2) = ref_ckd(&k.key, &k.cc, i)?;
+        k.fp = ref_fp(&k.key);
+        k.depth += 1;
+        k.num = i;
+        k.cc = c2;
+        k.key = child;
+        k.offsets.push(o);
+    }
+    Some(k)
+}
+fn ref_serialize(version: u32, k: &RefKey) -> Vec<u8> {
+    let mut s = version.to_be_bytes().to_vec();
+    s.push(k.depth as u8);
+    s.extend_from_slice(&k.fp);
+    s.extend_from_slice(&k.num.to_be_bytes());
+    s.extend_from_slice(&k.cc);
+    s.extend_from_slice(k.key.to_encoded_point(true).as_bytes());
+    s
+}
+fn ref_b58check(s: &[u8]) -> String {
+    let mut v = s.to_vec();
+    v.extend_from_slice(&sha256(&sha256(s))[..4]);
+    ref_b58(&v)
+}
+
+// ---------------------------------------------------------------- case generation
+fn rand_index(r: &mut impl RngCore, k: usize) -> u32 {
+    match k % 4 { 0 => 0, 1 => 1, 2 => HARD - 1, _ => r.next_u32() & (HARD - 1) }
+}
+fn rand_point(r: &mut (impl RngCore + rand::CryptoRng)) -> ProjectivePoint {
+    ProjectivePoint::GENERATOR * Scalar::random(r)
+}
+fn prefix_tag(r: &mut impl RngCore, k: usize) -> String {
+    match k % 6 { 0 => "x".into(), 1 => "y".into(), 2 => "z".into(), 3 => "t".into(),
+                  4 => format!("c{:x}", r.next_u32()), _ => ["c0", "cffffffff", "c488b21e"][(r.next_u32() % 3) as usize].into() }
+}
+
+fn gen_cases(seed: u64, thorough: bool) -> Vec<Case> {
+    let mut r = rng(seed, "c12-cases");
+    let mut v: Vec<Case> = vec![];
+    let mut k = 0usize;
+    let mut push = |v: &mut Vec<Case>, r: &mut rand_chacha::ChaCha20Rng, kind: &str, root: Option<ProjectivePoint>, path: Vec<u32>| {
+        let root = root.unwrap_or_else(|| rand_point(r));
+        let mut cc = [0u8; 32];
+        r.fill_bytes(&mut cc);
+        let prefix = prefix_tag(r, k);
+        v.push(Case { kind: kind.into(), prefix, root, cc, path, parse: k % 2 == 0 });
+        k += 1;
+    };
+    // A. non-hardened paths over the whole length range
+    let lens: Vec<usize> = if thorough { (0..=255).collect() }
+        else { vec![0, 1, 2, 3, 4, 5, 6, 7, 8, 12, 16, 24, 32, 48, 64, 100, 128, 200, 254, 255] };
+    for (j, &l) in lens.iter().enumerate() {
+        let path: Vec<u32> = (0..l).map(|p| rand_index(&mut r, p + j)).collect();
+        push(&mut v, &mut r, "normal", None, path);
+    }
+    // B. too deep
+    let deep: Vec<usize> = if thorough { (256..=300).collect() } else { vec![256, 257, 300] };
+    for (j, &l) in deep.iter().enumerate() {
+        let path: Vec<u32> = (0..l).map(|p| rand_index(&mut r, p + j)).collect();
+        push(&mut v, &mut r, "too-deep", None, path);
+    }
+    let mut path: Vec<u32> = (0..280).map(|p| rand_index(&mut r, p)).collect();
+    path[100] |= HARD;
+    push(&mut v, &mut r, "too-deep-hardened", None, path);
+    // C. hardened components at the first / a middle / the last position
+    let hl: Vec<usize> = if thorough { vec![1, 2, 3, 4, 5, 8, 10, 20, 40, 100, 200, 255] } else { vec![1, 2, 3, 5, 10, 40, 255] };
+    for (j, &l) in hl.iter().enumerate() {
+        let mut poss = vec![0usize, l / 2, l - 1];
+        poss.dedup();
+        for (pj, &pos) in poss.iter().enumerate() {
+            let mut path: Vec<u32> = (0..l).map(|p| rand_index(&mut r, p + j)).collect();
+            path[pos] = rand_index(&mut r, j + pj) | HARD;
+            let kind = if pos == 0 { "hardened-first" } else if pos == l - 1 { "hardened-last" } else { "hardened-middle" };
+            push(&mut v, &mut r, kind, None, path);
+        }
+    }
+    // D. identity root
+    for l in [0usize, 1, 3, 256] {
+        let path: Vec<u32> = (0..l).map(|p| rand_index(&mut r, p)).collect();
+        push(&mut v, &mut r, "identity-root", Some(ProjectivePoint::IDENTITY), path);
+    }
+    push(&mut v, &mut r, "identity-root", Some(ProjectivePoint::IDENTITY), vec![HARD]);
+    // F. special roots and chain codes
+    let g = ProjectivePoint::GENERATOR;
+    for (j, root) in [g, -g, g + g].into_iter().enumerate() {
+        let path: Vec<u32> = (0..(j + 1)).map(|p| rand_index(&mut r, p + j)).collect();
+        push(&mut v, &mut r, "special-root", Some(root), path);
+    }
+    for fill in [0u8, 0xff] {
+        let path: Vec<u32> = (0..4).map(|p| rand_index(&mut r, p + 3)).collect();
+        push(&mut v, &mut r, "special-chain-code", None, path);
+        v.last_mut().unwrap().cc = [fill; 32];
+    }
+    // E. random
+    let n_rand = if thorough { 3000 } else { 60 };
+    for j in 0..n_rand {
+        let l = match r.next_u32() % 20 { 0 => (r.next_u32() % 301) as usize, 1..=3 => (r.next_u32() % 40) as usize, _ => (r.next_u32() % 9) as usize };
+        let hardened_case = j % 7 == 0;
+        let mut path: Vec<u32> = (0..l).map(|_| { let c = (r.next_u32() % 4) as usize; rand_index(&mut r, c) }).collect();
+        if hardened_case && l > 0 {
+            let pos = (r.next_u32() as usize) % l;
+            path[pos] |= HARD;
+        }
+        push(&mut v, &mut r, if hardened_case && l > 0 { "random-hardened" } else { "random" }, None, path);
+    }
+    v
+}
+
+// ---------------------------------------------------------------- one derivation case
+struct Tally { evals: u64, nontrivial: u64, disagree: Vec<String>, oracle: Vec<String>, samples: Vec<String> }
+
+fn run_case(c: &Case, drv: &mut Driver, t: &mut Tally, log: &mut impl Write) {
+    let inp = input_str(c);
+    let non_hardened = c.path.iter().all(|&i| i & HARD == 0);
+    let is_id = c.root == ProjectivePoint::IDENTITY;
+    // ---- implementation
+    let res = catch_unwind(AssertUnwindSafe(|| derive_xpub(prefix_of(&c.prefix), &c.root, c.cc, mk_path(c))));
+    let (impl_s, impl_x): (String, Option<XPubKey>) = match res {
+        Err(_) => ("panic".into(), None),
+        Ok(Err(e)) => (format!("err {:x}", err_code(&e)), None),
+        Ok(Ok(x)) => {
+            let h = str_out(catch_unwind(AssertUnwindSafe(|| x.to_string(false))));
+            let b = str_out(catch_unwind(AssertUnwindSafe(|| x.to_string(true))));
+            (format!("val {:x} {:x} {} {:x} {} {} {} {}", u32::from(x.prefix), x.depth, hx(&x.parent_fingerprint), x.child_number,
+                hx(&x.chain_code), point_hex(&x.pubkey), h, b), Some(x))
+        }
+    };
+    writeln!(log, "xpub {} {} -> {}", c.kind, inp, impl_s).unwrap();
+    // ---- model
+    let m = drv.run("c12.xpub", &[c.prefix.clone(), point_hex(&c.root), hx(&c.cc), path_str(&c.path)]);
+    t.evals += 1;
+    let model_s = match &m {
+        Ok(v) if v[0] == "val" && v.len() == 9 => format!("val {} {} {} {} {} {} {} {}", v[1], v[2], v[3], v[4], v[5], v[6], strip_site(&v[7]), strip_site(&v[8])),
+        Ok(v) if v[0] == "err" && v.len() == 2 => format!("err {}", v[1]),
+        Ok(v) if v[0] == "panic" => "panic".into(),
+        other => format!("{:?}", other),
+    };
+    if model_s != impl_s {
+        t.disagree.push(format!("derive_xpub/to_string [{}] {}: impl `{}` model `{}`", c.kind, inp, impl_s, model_s));
+    }
+    // ---- specification (extracted bip32_spec + spec_string)
+    let sp = drv.run("c12.spec", &[format!("{:x}", version_of(&c.prefix)), point_hex(&c.root), hx(&c.cc), path_str(&c.path)]);
+    t.evals += 1;
+    if non_hardened && c.path.len() <= 255 && !is_id {
+        let spec_s = match &sp {
+            Ok(v) if v[0] == "some" && v.len() == 8 => format!("val {:x} {} {} {} {} {} val:{} val:{}", version_of(&c.prefix), v[1], v[2], v[3], v[4], v[5], v[6], v[7]),
+            Ok(v) if v[0] == "none" => "none".into(),
+            other => format!("{:?}", other),
+        };
+        let agree = if spec_s == "none" { impl_s == "err 4" || impl_s == "err 3" } else { spec_s == impl_s };
+        if !agree {
+            t.disagree.push(format!("bip32_spec [{}] {}: impl `{}` spec `{}`", c.kind, inp, impl_s, spec_s));
+        }
+    } else if !non_hardened {
+        match &sp { Ok(v) if v[0] == "none" => {}, other => t.disagree.push(format!("bip32_spec accepts a hardened path {}: {:?}", inp, other)) }
+    }
+    // ---- offsets, step by step with the real derive_child_pubkey
+    let mut offs: Vec<Scalar> = vec![];
+    let mut cur = c.root;
+    let mut cc = c.cc;
+    let mut step_fail: Option<String> = None;
+    for (pos, &i) in c.path.iter().enumerate() {
+        let r = catch_unwind(AssertUnwindSafe(|| derive_child_pubkey(&cur, cc, &ChildIndex::from_bits(i))));
+        match r {
+            Ok(Ok((o, child, c2))) => {
+                // additivity, with k256 only
+                if child != cur + ProjectivePoint::GENERATOR * o {
+                    t.oracle.push(format!("derive_child_pubkey: child != parent + offset*G at level {} of {}", pos, inp));
+                }
+                // against the BIP reference
+                match ref_ckd(&cur, &cc, i) {
+                    Some((ro, rk, rc)) if ro == o && rk == child && rc == c2 => {}
+                    _ if cur == ProjectivePoint::IDENTITY => {}
+                    _ => t.oracle.push(format!("derive_child_pubkey differs from CKDpub at level {} of {}", pos, inp)),
+                }
+                offs.push(o);
+                cur = child;
+                cc = c2;
+            }
+            Ok(Err(e)) => { step_fail = Some(format!("err {:x}", err_code(&e))); break; }
+            Err(_) => { step_fail = Some("panic".into()); break; }
+        }
+    }
+    let offs_s = if offs.is_empty() { "-".to_string() } else { offs.iter().map(hex_of_scalar).collect::<Vec<_>>().join(",") };
+    let mo = drv.run("c12.offsets", &[point_hex(&c.root), hx(&c.cc), path_str(&c.path)]);
+    t.evals += 1;
+    match &mo {
+        Ok(v) if v.len() == 1 && v[0] == offs_s => {}
+        other => t.disagree.push(format!("offsets [{}] {}: impl `{}` model {:?}", c.kind, inp, offs_s, other)),
+    }
+    if c.path.len() >= 2 && impl_x.is_some() { t.nontrivial += 1; }
+    // ---- implementation-only oracle on derive_xpub
+    let expect: String = if is_id { "err 3".into() }
+        else if c.path.len() > 255 { "err 5".into() }
+        else if !non_hardened { "err 1".into() }
+        else {
+            match ref_derive(&c.root, &c.cc, &c.path) {
+                Some(k) => {
+                    let ser = ref_serialize(version_of(&c.prefix), &k);
+                    // additivity of the whole path
+                    let sum = k.offsets.iter().fold(Scalar::ZERO, |a, b| a + b);
+                    if let Some(x) = &impl_x {
+                        if x.pubkey != c.root + ProjectivePoint::GENERATOR * sum || offs != k.offsets {
+                            t.oracle.push(format!("derive_xpub: key != root + (sum of offsets)*G for {}", inp));
+                        }
+                    }
+                    format!("val {:x} {:x} {} {:x} {} {} val:{} val:{}", version_of(&c.prefix), k.depth, hx(&k.fp), k.num, hx(&k.cc),
+                        point_hex(&k.key), hx(hex::encode(&ser).as_bytes()), hx(ref_b58check(&ser).as_bytes()))
+                }
+                None => "err".into(),
+            }
+        };
+    let ok = if expect == "err" { impl_s.starts_with("err") } else { expect == impl_s };
+    if !ok {
+        t.oracle.push(format!("derive_xpub [{}] {} returned `{}`, BIP32 reference demands `{}`", c.kind, inp, impl_s, expect));
+    }
+    if step_fail.as_deref() == Some("panic") {
+        t.oracle.push(format!("derive_child_pubkey panicked along {}", inp));
+    }
+    if t.samples.len() < 6 && (c.path.len() == 3 || c.kind.starts_with("hardened") || c.kind == "identity-root") {
+        let short: String = impl_s.chars().take(150).collect();
+        t.samples.push(format!("{} {} -> {}", c.kind, inp.chars().take(220).collect::<String>(), short));
+    }
+}
+
+// ---------------------------------------------------------------- single-function cases
+fn run_unit(seed: u64, thorough: bool, drv: &mut Driver, t: &mut Tally, log: &mut impl Write, kinds: &mut std::collections::BTreeMap<String, u64>) {
+    let mut r = rng(seed, "c12-unit");
+    let n = if thorough { 400 } else { 24 };
+    for j in 0..n {
+        // derive_child_pubkey / get_finger_print / CKDpub on one step, incl. the identity parent and hardened indices
+        let parent = match j % 8 { 0 => ProjectivePoint::IDENTITY, 1 => ProjectivePoint::GENERATOR, _ => rand_point(&mut r) };
+        let mut cc = [0u8; 32];
+        r.fill_bytes(&mut cc);
+        let i = match j % 5 { 4 => rand_index(&mut r, j) | HARD, _ => rand_index(&mut r, j) };
+        let res = catch_unwind(AssertUnwindSafe(|| derive_child_pubkey(&parent, cc, &ChildIndex::from_bits(i))));
+        let impl_s = match &res {
+            Err(_) => "panic".to_string(),
+            Ok(Err(e)) => format!("err {:x}", err_code(e)),
+            Ok(Ok((o, k, c2))) => format!("val {} {} {}", hex_of_scalar(o), point_hex(k), hx(c2)),
+        };
+        let m = drv.run("c12.child", &[point_hex(&parent), hx(&cc), format!("{:x}", i)]);
+        t.evals += 1;
+        let model_s = match &m { Ok(v) if v[0] == "panic" => "panic".to_string(), Ok(v) => v.join(" "), Err(e) => e.clone() };
+        writeln!(log, "child P={} cc={} i={:x} -> {}", point_hex(&parent), hx(&cc), i, impl_s).unwrap();
+        if impl_s != model_s {
+            t.disagree.push(format!("derive_child_pubkey P={} cc={} i={:x}: impl `{}` model `{}`", point_hex(&parent), hx(&cc), i, impl_s, model_s));
+        }
+        *kinds.entry("unit-child".into()).or_default() += 1;
+        // the specification's CKDpub + fingerprint (not for the identity parent: outside the BIP)
+        if parent != ProjectivePoint::IDENTITY {
+            let s = drv.run("c12.ckdpub", &[point_hex(&parent), hx(&cc), format!("{:x}", i)]);
+            t.evals += 1;
+            let fp = catch_unwind(AssertUnwindSafe(|| get_finger_print(&parent)));
+            let spec_ok = match (&s, &res, &fp) {
+                (Ok(v), Ok(Ok((_, k, c2))), Ok(f)) => v.len() == 4 && v[0] == "some" && v[1] == point_hex(k) && v[2] == hx(c2) && v[3] == hx(f),
+                (Ok(v), Ok(Err(_)), _) => v[0] == "none",
+                _ => false,
+            };
+            if !spec_ok {
+                t.disagree.push(format!("CKDpub/fingerprint spec P={} cc={} i={:x}: impl `{}` spec {:?}", point_hex(&parent), hx(&cc), i, impl_s, s));
+            }
+            if let Ok(f) = &fp { if *f != ref_fp(&parent) { t.oracle.push(format!("get_finger_print({}) differs from HASH160 prefix", point_hex(&parent))); } }
+        }
+        // get_finger_print: value or panic
+        let fp = catch_unwind(AssertUnwindSafe(|| get_finger_print(&parent)));
+        let impl_fp = match &fp { Ok(f) => format!("val:{}", hx(f)), Err(_) => "panic".into() };
+        let mfp = drv.run("c12.fp", &[point_hex(&parent)]);
+        t.evals += 1;
+        match &mfp {
+            Ok(v) if v.len() == 1 && strip_site(&v[0]) == impl_fp => {}
+            other => t.disagree.push(format!("get_finger_print({}): impl `{}` model {:?}", point_hex(&parent), impl_fp, other)),
+        }
+        // to_string of a hand-made key (incl. the identity key: the 78-byte expect)
+        let x = XPubKey { prefix: prefix_of(&prefix_tag(&mut r, j)), parent_fingerprint: r.gen(), child_number: r.next_u32(),
+                          pubkey: parent, chain_code: cc, depth: (r.next_u32() & 0xff) as u8 };
+        let h = str_out(catch_unwind(AssertUnwindSafe(|| x.to_string(false))));
+        let b = str_out(catch_unwind(AssertUnwindSafe(|| x.to_string(true))));
+        let ptag = format!("c{:x}", u32::from(x.prefix));
+        let ms = drv.run("c12.tostring", &[ptag, format!("{:x}", x.depth), hx(&x.parent_fingerprint), format!("{:x}", x.child_number), hx(&cc), point_hex(&parent)]);
+        t.evals += 1;
+        match &ms {
+            Ok(v) if v.len() == 2 && strip_site(&v[0]) == h && strip_site(&v[1]) == b => {}
+            other => t.disagree.push(format!("to_string depth={} key={}: impl `{}` `{}` model {:?}", x.depth, point_hex(&parent), h, b, other)),
+        }
+        *kinds.entry("unit-to_string".into()).or_default() += 1;
+    }
+    // Base58 alone: model vs bs58 (what the code calls) vs the BigUint reference, and the decode round trip
+    let nb = if thorough { 600 } else { 40 };
+    for j in 0..nb {
+        let len = match j % 8 { 0 => 0, 1 => 1, 2 => 82, _ => (r.next_u32() % 100) as usize };
+        let mut b = vec![0u8; len];
+        r.fill_bytes(&mut b);
+        let z = match j % 4 { 0 => 0, 1 => 1.min(len), 2 => (r.next_u32() as usize % 6).min(len), _ => if j % 16 == 3 { len } else { 0 } };
+        for x in b.iter_mut().take(z) { *x = 0; }
+        let real = bs58::encode(&b).with_alphabet(bs58::Alphabet::BITCOIN).into_string();
+        if real != ref_b58(&b) || ref_b58_decode(&real).as_deref() != Some(&b[..]) {
+            t.oracle.push(format!("bs58 differs from the reference base conversion on {}", hx(&b)));
+        }
+        let m = drv.run("c12.b58", &[hx(&b)]);
+        t.evals += 1;
+        match &m {
+            Ok(v) if v.len() == 2 && v[0] == hx(real.as_bytes()) && v[1] == format!("some:{}", hx(&b)) => {}
+            other => t.disagree.push(format!("base58 of {}: bs58 `{}` model {:?}", hx(&b), real, other)),
+        }
+        *kinds.entry("unit-base58".into()).or_default() += 1;
+    }
+}
+
+// ---------------------------------------------------------------- BIP32 test vectors (public derivations)
+fn decode_xpub(s: &str) -> (u32, u8, [u8; 4], u32, [u8; 32], ProjectivePoint) {
+    let b = ref_b58_decode(s).expect("base58");
+    assert_eq!(b.len(), 82, "test vector length {s}");
+    assert_eq!(&sha256(&sha256(&b[..78]))[..4], &b[78..], "test vector checksum {s}");
+    let key = point_of_hex(&hex::encode(&b[45..78])).expect("test vector key");
+    (u32::from_be_bytes(b[0..4].try_into().unwrap()), b[4], b[5..9].try_into().unwrap(), u32::from_be_bytes(b[9..13].try_into().unwrap()),
+     b[13..45].try_into().unwrap(), key)
+}
+fn test_vectors(t: &mut Tally, kinds: &mut std::collections::BTreeMap<String, u64>) {
+    // (parent xpub, index, child xpub) -- BIP32 test vector 1: m/0H -> /1 ; m/0H/1/2H -> /2 -> /1000000000 ; test vector 2: m -> /0 ;
+    // m/0/2147483647H -> /1 ; m/0/2147483647H/1/2147483646H -> /2
+    let tv: [(&str, u32, &str); 6] = [
+        ("xpub68Gmy5EdvgibQVfPdqkBBCHxA5htiqg55crXYuXoQRKfDBFA1WEjWgP6LHhwBZeNK1VTsfTFUHCdrfp1bgwQ9xv5ski8PX9rL2dZXvgGDnw", 1,
+         "xpub6ASuArnXKPbfEwhqN6e3mwBcDTgzisQN1wXN9BJcM47sSikHjJf3UFHKkNAWbWMiGj7Wf5uMash7SyYq527Hqck2AxYysAA7xmALppuCkwQ"),
+        ("xpub6D4BDPcP2GT577Vvch3R8wDkScZWzQzMMUm3PWbmWvVJrZwQY4VUNgqFJPMM3No2dFDFGTsxxpG5uJh7n7epu4trkrX7x7DogT5Uv6fcLW5", 2,
+         "xpub6FHa3pjLCk84BayeJxFW2SP4XRrFd1JYnxeLeU8EqN3vDfZmbqBqaGJAyiLjTAwm6ZLRQUMv1ZACTj37sR62cfN7fe5JnJ7dh8zL4fiyLHV"),
+        ("xpub6FHa3pjLCk84BayeJxFW2SP4XRrFd1JYnxeLeU8EqN3vDfZmbqBqaGJAyiLjTAwm6ZLRQUMv1ZACTj37sR62cfN7fe5JnJ7dh8zL4fiyLHV", 1000000000,
+         "xpub6H1LXWLaKsWFhvm6RVpEL9P4KfRZSW7abD2ttkWP3SSQvnyA8FSVqNTEcYFgJS2UaFcxupHiYkro49S8yGasTvXEYBVPamhGW6cFJodrTHy"),
+        ("xpub661MyMwAqRbcFW31YEwpkMuc5THy2PSt5bDMsktWQcFF8syAmRUapSCGu8ED9W6oDMSgv6Zz8idoc4a6mr8BDzTJY47LJhkJ8UB7WEGuduB", 0,
+         "xpub69H7F5d8KSRgmmdJg2KhpAK8SR3DjMwAdkxj3ZuxV27CprR9LgpeyGmXUbC6wb7ERfvrnKZjXoUmmDznezpbZb7ap6r1D3tgFxHmwMkQTPH"),
+        ("xpub6ASAVgeehLbnwdqV6UKMHVzgqAG8Gr6riv3Fxxpj8ksbH9ebxaEyBLZ85ySDhKiLDBrQSARLq1uNRts8RuJiHjaDMBU4Zn9h8LZNnBC5y4a", 1,
+         "xpub6DF8uhdarytz3FWdA8TvFSvvAh8dP3283MY7p2V4SeE2wyWmG5mg5EwVvmdMVCQcoNJxGoWaU9DCWh89LojfZ537wTfunKau47EL2dhHKon"),
+        ("xpub6ERApfZwUNrhLCkDtcHTcxd75RbzS1ed54G1LkBUHQVHQKqhMkhgbmJbZRkrgZw4koxb5JaHWkY4ALHY2grBGRjaDMzQLcgJvLJuZZvRcEL", 2,
+         "xpub6FnCn6nSzZAw5Tw7cgR9bi15UV96gLZhjDstkXXxvCLsUXBGXPdSnLFbdpq8p9HmGsApME5hQTZ3emM2rnY5agb9rXpVGyy3bdW6EEgAtqt"),
+    ];
+    for (par, idx, child) in tv {
+        let (_, pd, _, _, pcc, pk) = decode_xpub(par);
+        let (cv, cd, cfp, cnum, ccc, ck) = decode_xpub(child);
+        assert!(cd == pd + 1 && cnum == idx);
+        let what = format!("BIP32 test vector {} -> /{}", par, idx);
+        match catch_unwind(AssertUnwindSafe(|| derive_child_pubkey(&pk, pcc, &ChildIndex::from_bits(idx)))) {
+            Ok(Ok((o, k, c2))) => {
+                if k != ck || c2 != ccc || k != pk + ProjectivePoint::GENERATOR * o {
+                    t.oracle.push(format!("{what}: derive_child_pubkey gives key {} chain code {}", point_hex(&k), hx(&c2)));
+                }
+                match catch_unwind(AssertUnwindSafe(|| get_finger_print(&pk))) {
+                    Ok(f) if f == cfp => {}
+                    other => t.oracle.push(format!("{what}: get_finger_print(parent) = {:?}, vector says {}", other.ok(), hx(&cfp))),
+                }
+                let x = XPubKey { prefix: Prefix::from(cv.to_be_bytes()), parent_fingerprint: cfp, child_number: cnum, pubkey: k, chain_code: c2, depth: cd };
+                match catch_unwind(AssertUnwindSafe(|| x.to_string(true))) {
+                    Ok(s) if s == child => {}
+                    other => t.oracle.push(format!("{what}: to_string(true) = {:?}", other.ok())),
+                }
+            }
+            other => t.oracle.push(format!("{what}: derive_child_pubkey failed: {:?}", other.map(|r| r.map(|_| ()).map_err(|e| err_code(&e))).ok())),
+        }
+        // derive_xpub from the parent as root must produce the same key / chain code / fingerprint / child number
+        let (_, _, _, _, pcc, pk) = decode_xpub(par);
+        match catch_unwind(AssertUnwindSafe(|| derive_xpub(Prefix::XPub, &pk, pcc, DerivationPath::new(vec![ChildIndex::from_bits(idx)])))) {
+            Ok(Ok(x)) if x.pubkey == ck && x.chain_code == ccc && x.parent_fingerprint == cfp && x.child_number == idx && x.depth == 1 => {}
+            _ => t.oracle.push(format!("{what}: derive_xpub with the parent as root disagrees with the vector")),
+        }
+        t.evals += 1;
+        *kinds.entry("bip32-test-vector".into()).or_default() += 1;
+    }
+}
+
+fn parse_replay(txt: &str) -> Option<Case> {
+    let field = |k: &str| -> Option<String> {
+        let p = txt.find(&format!("{k}="))? + k.len() + 1;
+        Some(txt[p..].chars().take_while(|c| c.is_ascii_alphanumeric() || *c == ',' || *c == '-').collect())
+    };
+    let path_s = field("path")?;
+    let path = if path_s == "-" || path_s.is_empty() { vec![] } else { path_s.split(',').map(|x| u32::from_str_radix(x, 16).unwrap()).collect() };
+    let cc: [u8; 32] = hex::decode(field("cc")?).ok()?.try_into().ok()?;
+    Some(Case { kind: "replay".into(), prefix: field("prefix")?, root: point_of_hex(&field("root")?)?, cc, path, parse: false })
+}
+
+pub fn run(kv: &Args) -> i32 {
+    let seed = kv.u64("seed", 1);
+    let out = kv.str("out", "/verif/build/run/C12");
+    std::fs::create_dir_all(&out).unwrap();
+    let thorough = kv.thorough();
+    let mut drv = Driver::spawn();
+    let mut log = std::io::BufWriter::new(std::fs::File::create(format!("{out}/cases.txt")).unwrap());
+    let mut t = Tally { evals: 0, nontrivial: 0, disagree: vec![], oracle: vec![], samples: vec![] };
+    let mut kinds: std::collections::BTreeMap<String, u64> = Default::default();
+    let hook = std::panic::take_hook();
+    std::panic::set_hook(Box::new(|_| {}));
+    let cases = match kv.get("replay") {
+        Some(rp) => vec![parse_replay(&std::fs::read_to_string(rp).expect("replay file")).expect("replay: prefix= root= cc= path=")],
+        None => gen_cases(seed, thorough),
+    };
+    let mut levels = 0usize;
+    for c in &cases {
+        run_case(c, &mut drv, &mut t, &mut log);
+        *kinds.entry(c.kind.clone()).or_default() += 1;
+        levels += c.path.len();
+    }
+    if kv.get("replay").is_none() {
+        run_unit(seed, thorough, &mut drv, &mut t, &mut log, &mut kinds);
+        test_vectors(&mut t, &mut kinds);
+    }
+    std::panic::set_hook(hook);
+    let mut f = std::fs::File::create(format!("{out}/result.txt")).unwrap();
+    writeln!(f, "evaluations {}", t.evals).unwrap();
+    writeln!(f, "mutations {}", t.nontrivial).unwrap();
+    writeln!(f, "derivations {}", cases.len()).unwrap();
+    writeln!(f, "levels {}", levels).unwrap();
+    writeln!(f, "oracle_queries {}", drv.queries).unwrap();
+    for (k, v) in &kinds { writeln!(f, "kind {k} {v}").unwrap(); }
+    for s in &t.samples { writeln!(f, "SAMPLE {s}").unwrap(); }
+    for d in &t.disagree { writeln!(f, "DISAGREE {d}").unwrap(); }
+    for d in &t.oracle { writeln!(f, "ORACLE {d}").unwrap(); }
+    0
 }
